@@ -47,10 +47,15 @@
                                    [Text2 ws [c]], a control sequence [Mac2 ws name post []] (its own
                                    arguments are not parsed), a specials sequence [Spc2 ws chars []]
 
-    NOT covered (rest of stage (d), stage (e6)):
-    a paragraph break followed by indentation or directly after a control word /
+                                   (stage (e6)) in the extended grammar a comment may end with the input
+                                   ([Cmt2 ws text []], nothing after it) and a paragraph break may be
+                                   followed by indentation (the whitespace in front of what follows has no
+                                   newline)
+
+    NOT covered:
+    a paragraph break directly after a control word /
     comment, paragraph-break whitespace in a context without the [\n\n] specials,
-    a comment ending at the end of input, comments before an argument, a delimited argument directly nested in the body of another one,
+    comments before an argument, a delimited argument directly nested in the body of another one,
     verbatim (macro, environments, argument kind).
 
     Full statement (kept for reference, not proved):
@@ -448,3 +453,24 @@ Example C02_single_token_arguments_nonvacuous :
   (ok_doc2 default_ctx bad = false /\
    parse_top (unparse2 bad) false default_ctx (walker_state default_ctx) <> doc_result2 default_ctx bad).
 Proof. vm_compute. repeat split. discriminate. Qed.
+
+(** stage (e6): [a \n\t\n  b{c\n\n }\n\n\n\t%x {] — a paragraph break followed by an indented
+    line, one before a closing brace, one followed by an indented comment that ends with
+    the input (and contains a brace); a paragraph break whose follower starts on a
+    new line is rejected (the real paragraph token is longer); a comment without
+    newline inside a group swallows the closing brace *)
+Example C02_comment_eof_par_indent_nonvacuous :
+  let d := {| d_items2 := [Text2 [] [97]; Par2 [32] [9]; Text2 [32;32] [98];
+                           Grp2 [] [Text2 [] [99]; Par2 [] []] [32]; Par2 [] [10]; Cmt2 [9] [120;32;123] []];
+              d_trail2 := [] |} in
+  let bad1 := {| d_items2 := [Text2 [] [97]; Par2 [32] [9]; Text2 [10] [98]]; d_trail2 := [] |} in
+  let bad2 := {| d_items2 := [Grp2 [] [Cmt2 [] [120] []] []]; d_trail2 := [] |} in
+  (ok_doc2 default_ctx d = true /\
+   parse_top (unparse2 d) false default_ctx (walker_state default_ctx) = doc_result2 default_ctx d /\
+   length (unparse2 d) = 22%nat /\
+   length (fst (tree_of2 default_ctx (walker_state default_ctx) 0 d)) = 7%nat) /\
+  (ok_doc2 default_ctx bad1 = false /\
+   parse_top (unparse2 bad1) false default_ctx (walker_state default_ctx) <> doc_result2 default_ctx bad1) /\
+  (ok_doc2 default_ctx bad2 = false /\
+   parse_top (unparse2 bad2) false default_ctx (walker_state default_ctx) <> doc_result2 default_ctx bad2).
+Proof. vm_compute. repeat split; discriminate. Qed.
